@@ -323,6 +323,11 @@ theorem filter_proj (a : Item) (e : Effect) (t : Item) :
   simp only [Function.comp, selects]
   cases m.domain == 4 <;> cases m.tgtAttr == attr <;> simp
 
+/-- The settled state of the specification registers no warfare-buff payload. -/
+theorem projMods_derived (a : Item) (e : Effect) :
+    projMods u (derivedDyn u cfg) a e = e.mods.filter (·.domain == 4) := by
+  unfold projMods derivedDyn; cases e.isBuff <;> simp
+
 /-- Per carrier item: the settled specs that act on `(x, attr)` are the specification's, with the local
 ones of all running effects listed first. -/
 theorem specs_item_perm (hc : UniqueIds cfg) {a : Item} (ha : a ∈ cfg.items) :
@@ -346,12 +351,16 @@ theorem specs_item_perm (hc : UniqueIds cfg) {a : Item} (ha : a ∈ cfg.items) :
         (e.mods.filter fun m => m.domain == 4 && m.tgtAttr == attr && affectsProjected cfg a m tg x tx).map
           fun m => (⟨a, e, m, some tg⟩ : Spec)) ?_, hrun]
     intro e he
-    rw [targetsOf_derived_running hc ha he]
+    rw [targetsOf_derived_running hc ha he, projMods_derived]
     split
     · rw [List.filter_flatMap]
       exact List.flatMap_congr fun t _ => filter_proj a e t
     · rename_i hcat
-      simp [projectionTargets, hcat]
+      have hcat2 : (e.category == 2) = false := by
+        cases h2 : e.category == 2
+        · rfl
+        · rw [h2] at hcat; exact absurd rfl hcat
+      simp [projectionTargets, hcat2]
   rw [List.filter_append, hl, hp]
   exact List.flatMap_append_perm _ _ _
 
